@@ -6,7 +6,8 @@ CONSTANTS
   WithHist = FALSE
   MaxG = 1
   GenLen = 0
+  WithWDL = TRUE
   DEV = "garbage_continues"
-INVARIANTS TypeOK OneReply NoReadAfterGiveUp DeadlineClass NilCloses CtxNotEarly DoneIsClean
+INVARIANTS TypeOK FramesWhole OneReply NoReadAfterGiveUp DeadlineClass NilCloses CtxNotEarly DoneIsClean
 VIEW ViewNoHist
 CHECK_DEADLOCK FALSE
